@@ -100,6 +100,16 @@ def add_parse_options(rng, spec, table, *, neutral=False, allow_drop=True):
         if fs["regex"]:
             if rng.random() < 0.3:
                 fs["coerce"] = True
+            matched = [c for c in table["columns"] if model.match_regex(fs["name"], c["name"])]
+            if matched and fs["dtype"] in ("float64", "str", "datetime") and not fs["unique"] \
+                    and rng.random() < 0.35:
+                ok = G.satisfying(fs)
+                col = rng.choice(matched)
+                if ok and col["values"] and col["phys"] == G.PHYS_OF[fs["dtype"]]:
+                    fs["default"] = rng.choice(ok)
+                    col["values"][rng.randrange(len(col["values"]))] = None
+                    opts.append("default")
+                    opts.append("regex_default")
             continue
         col = cols.get(fs["name"])
         if (spec["coerce"] or rng.random() < 0.4):
@@ -189,8 +199,9 @@ def strip(spec):
     return s
 
 
-def gen_parse_case(rng, *, neutral=False, allow_drop=True, kind=None, mutate_p=0.35):
-    spec = G.gen_spec(rng, neutral=neutral, kind=kind)
+def gen_parse_case(rng, *, neutral=False, allow_drop=True, kind=None, mutate_p=0.35,
+                   neutral_regex=False):
+    spec = G.gen_spec(rng, neutral=neutral, kind=kind, neutral_regex=neutral_regex)
     spec.pop("checks", None)
     if spec["kind"] == "frame":
         spec["dtype"] = None
